@@ -92,7 +92,7 @@ touch done-c31
 
 fn git(dir: &Path) -> Command {
     let mut c = Command::new("git");
-    c.arg("-C").arg(dir).env("GIT_CONFIG_NOSYSTEM", "1").env("GIT_CONFIG_GLOBAL", "/dev/null").env_remove("GIT_PROTOCOL").env_remove("GIT_DIR");
+    c.arg("-C").arg(dir).env("LC_ALL", "C").env("GIT_CONFIG_NOSYSTEM", "1").env("GIT_CONFIG_GLOBAL", "/dev/null").env_remove("GIT_PROTOCOL").env_remove("GIT_DIR");
     c
 }
 fn out(c: &mut Command) -> Result<String, String> {
@@ -138,7 +138,7 @@ fn generate(seed: u64) -> Workload {
 
 fn gix_fetch(client: &Path, srv: &Path, w: &Workload, depth: u32, deepen: u32, seed: u64, replay: Option<Vec<u16>>, rep: &mut Report) -> Result<String, String> {
     let mut cmd = Command::new("git");
-    cmd.arg("upload-pack").arg(srv).env("GIT_CONFIG_NOSYSTEM", "1").env("GIT_CONFIG_GLOBAL", "/dev/null").env_remove("GIT_PROTOCOL");
+    cmd.arg("upload-pack").arg(srv).env("LC_ALL", "C").env("GIT_CONFIG_NOSYSTEM", "1").env("GIT_CONFIG_GLOBAL", "/dev/null").env_remove("GIT_PROTOCOL");
     if w.version != 1 {
         cmd.env("GIT_PROTOCOL", format!("version={}", w.version));
     }
